@@ -136,7 +136,22 @@ fn reproduces(tr: &Trace, prop: &str, key: &str, scratch: &Path, counter: &mut u
     }
     let st = Command::new(exe()).arg("replay").arg(&path).args(["--prop", prop, "--key", key]).stdout(Stdio::null()).stderr(Stdio::null()).status();
     let _ = std::fs::remove_file(&path);
+    if key.starts_with("I1:abort") {
+        // the failure is the death of the process (std's unsafe-precondition check, a wild write)
+        return matches!(st, Ok(s) if died(&s));
+    }
     matches!(st, Ok(s) if s.code() == Some(1))
+}
+
+fn died(s: &std::process::ExitStatus) -> bool {
+    use std::os::unix::process::ExitStatusExt;
+    s.signal().is_some() || s.code() == Some(134)
+}
+
+/// The programmes of runs from..to as generated from their seeds, without executing them
+/// (needed when executing them kills the process).
+fn generate_only(prof: Profile, base: u64, from: u64, to: u64) -> Trace {
+    Trace { profile: prof.name().into(), runs: (from..to).map(|i| crate::ops::generate(crate::run_seed(base, prof, i), prof, false)).collect() }
 }
 
 fn dump(prof: Profile, base: u64, from: u64, to: u64) -> Option<Trace> {
@@ -330,6 +345,15 @@ pub fn check_main(args: &[String]) -> i32 {
     let scratch = std::env::temp_dir();
     println!("dsim check property={prop} tier={tier} seed={seed} profile={} runs={runs} jobs={jobs} miri={}", prof.name(), if with_miri { format!("{miri_workloads}x{miri_seeds}") } else { "off".into() });
 
+    // stale replay files of this property from earlier runs would only confuse
+    if let Ok(rd) = std::fs::read_dir(vdir.join("replay")) {
+        for e in rd.flatten() {
+            if e.file_name().to_string_lossy().starts_with(&format!("{prop}-")) {
+                let _ = std::fs::remove_file(e.path());
+            }
+        }
+    }
+
     // ---- Miri engine beside the native sessions
     let miri_handle = if with_miri {
         let (sim_dir, target) = (vdir.join("sim"), vdir.join("target").join("miri"));
@@ -378,8 +402,12 @@ pub fn check_main(args: &[String]) -> i32 {
         };
         let so = String::from_utf8_lossy(&out.stdout);
         let mut ended = false;
+        let mut begun: Option<u64> = None;
         for l in so.lines() {
-            if l.starts_with("RUN ") {
+            if l.starts_with("BEGIN ") {
+                begun = kv(l, "idx").and_then(|v| v.parse().ok());
+            } else if l.starts_with("RUN ") {
+                begun = None;
                 nruns += 1;
                 let d = kv(l, "digest").unwrap_or("").to_string();
                 let nt = match prof {
@@ -420,7 +448,29 @@ pub fn check_main(args: &[String]) -> i32 {
             }
         }
         if !ended {
-            harness_err.push(format!("session {from}..{to} ended abnormally (status {:?}): {}", out.status, String::from_utf8_lossy(&out.stderr).lines().last().unwrap_or("")));
+            let se = String::from_utf8_lossy(&out.stderr);
+            match (begun, died(&out.status)) {
+                (Some(idx), true) => {
+                    // the process was killed while executing run idx: a memory-safety failure in a
+                    // workload that uses only the safe public API
+                    let why = se.lines().find(|l| l.contains("unsafe precondition")).map(str::to_string);
+                    let key = if why.is_some() { "I1:abort:unsafe-precondition" } else { "I1:abort:signal" };
+                    viols.push(Viol {
+                        idx,
+                        seed: crate::run_seed(seed, prof, idx),
+                        inv: "I1".into(),
+                        props: "C07".into(),
+                        key: key.into(),
+                        msg: format!(
+                            "the session process died ({:?}) while executing this run: {}",
+                            out.status,
+                            why.unwrap_or_else(|| se.lines().last().unwrap_or("no diagnostic on stderr").to_string())
+                        ),
+                        session_from: from,
+                    });
+                }
+                _ => harness_err.push(format!("session {from}..{to} ended abnormally (status {:?}): {}", out.status, se.lines().last().unwrap_or(""))),
+            }
         }
     }
     let native_wall = t0.elapsed().as_secs_f64();
@@ -467,10 +517,12 @@ pub fn check_main(args: &[String]) -> i32 {
         let _ = std::fs::create_dir_all(vdir.join("replay"));
         let mut execs = 0u64;
         // alone in a fresh process, or else as the tail of its session's history
-        let alone = dump(prof, seed, first.idx, first.idx + 1);
+        let aborting = first.key.starts_with("I1:abort");
+        let get = |from: u64, to: u64| if aborting { Some(generate_only(prof, seed, from, to)) } else { dump(prof, seed, from, to) };
+        let alone = get(first.idx, first.idx + 1);
         let mut tr = match alone {
             Some(t) if reproduces(&t, &prop, &first.key, &scratch, &mut execs) => Some(t),
-            _ => match dump(prof, seed, first.session_from, first.idx + 1) {
+            _ => match get(first.session_from, first.idx + 1) {
                 Some(t) if reproduces(&t, &prop, &first.key, &scratch, &mut execs) => {
                     min_note.push_str("needs the earlier runs of its session (process-wide history); ");
                     Some(t)
@@ -511,9 +563,15 @@ pub fn check_main(args: &[String]) -> i32 {
         for (w, d) in &m.failures {
             let _ = std::fs::create_dir_all(vdir.join("replay"));
             let path = vdir.join("replay").join(format!("{prop}-miri-workload{w}.txt"));
+            // many-seeds names the failing Miri seed; that one execution is the exact replay
+            let failing: Option<u64> = d.split("FAILING SEED:").nth(1).and_then(|r| r.trim().split_whitespace().next()).and_then(|n| n.parse().ok());
+            let flags = match failing {
+                Some(n) => format!("-Zmiri-seed={n} -Zmiri-preemption-rate=0.05"),
+                None => format!("-Zmiri-many-seeds={seed}..{} -Zmiri-preemption-rate=0.05", seed + miri_seeds),
+            };
             let text = format!(
-                "# Miri engine failure for property {prop}\n# diagnostic: {d}\n# re-execute (the failing Miri seed is named in the diagnostic; use -Zmiri-seed=<n> for that one execution):\ncd /verif/sim && MIRIFLAGS=\"-Zmiri-many-seeds={seed}..{} -Zmiri-preemption-rate=0.05\" cargo +nightly miri run --offline --no-default-features -- miri --prop {prop} --profile {} --seed {w}\n",
-                seed + miri_seeds,
+                "# Miri engine failure for property {prop} (workload seed {w}, Miri seed {})\n# diagnostic: {d}\n# re-execute with /verif/check --replay <this file>, or directly:\ncd /verif/sim && MIRIFLAGS=\"{flags}\" cargo +nightly miri run --offline --no-default-features -- miri --prop {prop} --profile {} --seed {w}\n",
+                failing.map_or("unknown: the whole seed range is re-run".to_string(), |n| n.to_string()),
                 prof.name()
             );
             let _ = std::fs::write(&path, text);
